@@ -11,7 +11,7 @@ import sys
 sys.setrecursionlimit(20000)
 
 from lib import common as C, h1, mcgen, mcheck
-from translators import layout2lean
+from translators import layout2lean, consts2lean
 
 
 def parse_script(script):
@@ -117,6 +117,8 @@ def run(ctx):
     ctx.snapshot()
     try:
         changed, _ = layout2lean.main(ctx.src, ctx.scratch)
+        ch2, _ = consts2lean.main(ctx.src, ctx.scratch)
+        ctx.notes.append('Gen/Consts.lean regenerated (changed=%s)' % ch2)
         ctx.notes.append("Gen/Layout.lean regenerated from the snapshot (changed=%s)" % changed)
     except Exception as e:  # translator cannot read the source any more
         C.violation(ctx, "translator", {"kind": "translator-failed", "error": str(e),
